@@ -124,4 +124,140 @@ def rename_locals(suffix: str = "_r") -> dict[str, str]:
     return out
 
 
-GENERIC = {"reformat-all-modules": reformat, "shift-statements": shift, "rename-locals": rename_locals}
+def _binds(scope: ast.AST, name: str) -> bool:
+    """Does the nested scope `scope` bind `name` itself (parameter / assignment / comprehension target / def)?"""
+    if isinstance(scope, (ast.FunctionDef, ast.AsyncFunctionDef, ast.Lambda)):
+        a = scope.args
+        ps = {x.arg for x in a.posonlyargs + a.args + a.kwonlyargs} | ({a.vararg.arg} if a.vararg else set()) | ({a.kwarg.arg} if a.kwarg else set())
+        if name in ps:
+            return True
+    if isinstance(scope, _COMPS):
+        return any(isinstance(x, ast.Name) and x.id == name for g in scope.generators for x in ast.walk(g.target))
+    declared_outer = False
+    for n in _local_walk(scope):
+        if isinstance(n, ast.Nonlocal) and name in n.names:
+            declared_outer = True
+        if isinstance(n, ast.Global) and name in n.names:
+            return True
+    if declared_outer:
+        return False
+    for n in _local_walk(scope):
+        if isinstance(n, ast.Name) and n.id == name and isinstance(n.ctx, (ast.Store, ast.Del)):
+            return True
+        if isinstance(n, ast.ExceptHandler) and n.name == name:
+            return True
+        if isinstance(n, (ast.FunctionDef, ast.AsyncFunctionDef, ast.ClassDef)) and n.name == name:
+            return True
+        if isinstance(n, (ast.Import, ast.ImportFrom)) and any((a.asname or a.name).split(".")[0] == name for a in n.names):
+            return True
+    return False
+
+
+def _deep_walk(fn: ast.AST, name: str):  # type: ignore[no-untyped-def]
+    """Nodes in which `name` denotes fn's own local: fn's scope plus nested scopes that do not rebind it."""
+    stack = list(ast.iter_child_nodes(fn))
+    while stack:
+        n = stack.pop()
+        if isinstance(n, _SCOPES + _COMPS) and _binds(n, name):
+            # default values / decorators / first iterator are evaluated outside: keep it simple and stay out
+            continue
+        yield n
+        stack.extend(ast.iter_child_nodes(n))
+
+
+def _rename_deep(fn: ast.FunctionDef | ast.AsyncFunctionDef, suffix: str) -> int:
+    params = {a.arg for a in fn.args.args + fn.args.kwonlyargs + fn.args.posonlyargs}
+    if fn.args.vararg:
+        params.add(fn.args.vararg.arg)
+    if fn.args.kwarg:
+        params.add(fn.args.kwarg.arg)
+    own = list(_local_walk(fn))
+    if any(isinstance(n, (ast.Match, ast.Global, ast.Nonlocal)) for n in own):
+        return 0
+    if any(isinstance(n, ast.Call) and isinstance(n.func, ast.Name) and n.func.id in ("locals", "vars", "eval", "exec") for n in ast.walk(fn)):
+        return 0
+    stored: set[str] = set()
+    banned: set[str] = set(params)
+    for n in own:
+        if isinstance(n, ast.Name) and isinstance(n.ctx, (ast.Store, ast.Del)):
+            stored.add(n.id)
+        elif isinstance(n, ast.ExceptHandler) and n.name:
+            stored.add(n.name)
+        elif isinstance(n, (ast.Import, ast.ImportFrom)):
+            banned |= {(a.asname or a.name).split(".")[0] for a in n.names}
+        elif isinstance(n, ast.NamedExpr):
+            banned.add(n.target.id)
+        elif isinstance(n, (ast.FunctionDef, ast.AsyncFunctionDef, ast.ClassDef)):
+            banned.add(n.name)
+    # a comprehension anywhere below that uses the name as its own target: leave that name alone
+    for n in ast.walk(fn):
+        if isinstance(n, _COMPS):
+            for g in n.generators:
+                banned |= {x.id for x in ast.walk(g.target) if isinstance(x, ast.Name)}
+    todo = {x for x in stored - banned if not x.startswith("__")}
+    for name in todo:
+        for n in _deep_walk(fn, name):
+            if isinstance(n, ast.Name) and n.id == name:
+                n.id = name + suffix
+            elif isinstance(n, ast.ExceptHandler) and n.name == name:
+                n.name = name + suffix
+            elif isinstance(n, ast.Nonlocal) and name in n.names:
+                n.names = [name + suffix if x == name else x for x in n.names]
+    return len(todo)
+
+
+def rename_locals_deep(suffix: str = "_q") -> dict[str, str]:
+    """Alpha-renaming that also follows closure variables into nested functions / lambdas / class bodies."""
+    out = {}
+    for rel, src in _sources().items():
+        tree = ast.parse(src)
+        # outermost functions first, so that a closure variable is renamed from its defining scope
+        for n in ast.walk(tree):
+            if isinstance(n, (ast.FunctionDef, ast.AsyncFunctionDef)):
+                _rename_deep(n, suffix)
+        new = ast.unparse(tree) + "\n"
+        compile(new, rel, "exec")
+        out[rel] = new
+    return out
+
+
+class _RetTemp(ast.NodeTransformer):
+    def _f(self, node):  # type: ignore[no-untyped-def]
+        self.generic_visit(node)
+        node.body = self._block(node.body)
+        return node
+
+    visit_FunctionDef = _f
+    visit_AsyncFunctionDef = _f
+
+    def _block(self, body: list[ast.stmt]) -> list[ast.stmt]:
+        out: list[ast.stmt] = []
+        for s in body:
+            for f in ("body", "orelse", "finalbody"):
+                blk = getattr(s, f, None)
+                if isinstance(blk, list) and blk and isinstance(blk[0], ast.stmt) and not isinstance(s, (ast.FunctionDef, ast.AsyncFunctionDef, ast.ClassDef)):
+                    setattr(s, f, self._block(blk))
+            for h in getattr(s, "handlers", []) or []:
+                h.body = self._block(h.body)
+            if isinstance(s, ast.Return) and s.value is not None and not isinstance(s.value, (ast.Name, ast.Constant)):
+                out.append(ast.Assign(targets=[ast.Name(id="_ret_tmp", ctx=ast.Store())], value=s.value, lineno=s.lineno, col_offset=0))
+                out.append(ast.Return(value=ast.Name(id="_ret_tmp", ctx=ast.Load())))
+            else:
+                out.append(s)
+        return out
+
+
+def return_temp() -> dict[str, str]:
+    """`return <expr>` becomes `_ret_tmp = <expr>; return _ret_tmp` (a debugging-style refactoring)."""
+    out = {}
+    for rel, src in _sources().items():
+        tree = _RetTemp().visit(ast.parse(src))
+        ast.fix_missing_locations(tree)
+        new = ast.unparse(tree) + "\n"
+        compile(new, rel, "exec")
+        out[rel] = new
+    return out
+
+
+GENERIC = {"reformat-all-modules": reformat, "shift-statements": shift, "rename-locals": rename_locals,
+           "rename-locals-deep": rename_locals_deep, "return-temp": return_temp}
